@@ -216,24 +216,20 @@ Ltac so := unfold ok_outs in *; repeat first
   | apply Forall_app; split | apply Forall_cons
   | apply ok_pub; reflexivity | apply ok_body; [reflexivity | solve [bt]] ].
 
-Lemma acquire_block_ok : forall st kr ar st1 o sy go,
-  Inv st -> kr_ok kr -> acquire_block v st kr ar = (st1, o, sy, go) -> Inv st1 /\ ok_outs o.
+Lemma acquire_block_ok : forall co st kr ar st1 o sy go,
+  Inv st -> kr_ok kr -> acquire_block v co st kr ar = (st1, o, sy, go) -> Inv st1 /\ ok_outs o.
 Proof.
-  intros st kr ar st1 o sy go HI Hkr H. unfold acquire_block in H.
+  intros co st kr ar st1 o sy go HI Hkr H. unfold acquire_block in H.
   destruct kr as [k hex| |k l].
   - (* KOk *)
     destruct (negb hex && fix_hex v) eqn:Efix.
     + destruct (set_status st msg_acquire_nonhex_fixed true) as [st2 o2] eqn:E. inversion H; subst; clear H.
       pose proof (set_status_ok _ _ _ _ _ HI E) as X; feed X; destruct X as (A & B & _).
       split; auto. so.
-    + destruct (negb (dir_exists st)) eqn:Edir.
-      { destruct (set_status st msg_store_failed true) as [st2 o2] eqn:E. inversion H; subst; clear H.
-        pose proof (set_status_ok _ _ _ _ _ HI E) as X; feed X; destruct X as (A & B & _).
-        split; auto. so. }
-      assert (Hhex : hex_ok (k, hex)).
+    + assert (Hhex : hex_ok (k, hex)).
       { intros Hh; simpl in *; subst hex. simpl in Efix, Hkr. split; auto. }
-      assert (HI1 : Inv (set_files st (store_file k hex (files st)))).
-      { apply Inv_set_files; auto. intros e He. apply store_file_in in He. destruct He as [->|He]; auto.
+      assert (HI1 : Inv (set_dir (set_files st (store_file k hex (files st))) true)).
+      { apply Inv_set_dir. apply Inv_set_files; auto. intros e He. apply store_file_in in He. destruct He as [->|He]; auto.
         destruct HI as (_ & _ & C); auto. }
       assert (Hkf : ok_out (KeyFile, key_document k)) by (intros k' _; left; reflexivity).
       destruct hex; simpl negb in H; cbv iota in H.
@@ -241,9 +237,9 @@ Proof.
         destruct ar.
         -- destruct (startup_event "Successfully attest the key and ready to use.") as [m oe] eqn:Es.
            destruct (startup_event_ok _ _ _ Es) as [Hm Hoe].
-           destruct (set_status (set_mem (set_files st (store_file k true (files st))) (Some (k, true))) m false) as [st3 os] eqn:E.
+           destruct (set_status (set_mem (set_dir (set_files st (store_file k true (files st))) true) (Some (k, true))) m false) as [st3 os] eqn:E.
            inversion H; subst; clear H.
-           assert (HI2 : Inv (set_mem (set_files st (store_file k true (files st))) (Some (k, true)))).
+           assert (HI2 : Inv (set_mem (set_dir (set_files st (store_file k true (files st))) true) (Some (k, true)))).
            { apply Inv_set_mem; auto. intros e He; inversion He; subst; auto. }
            pose proof (set_status_ok _ _ _ _ _ HI2 E) as X; feed X; destruct X as (A & B & _).
            split; [apply Inv_key_latched; auto|]. so.
@@ -268,10 +264,10 @@ Proof.
     split; auto. so.
 Qed.
 
-Lemma key_block_ok : forall st guid kr ar st1 o sy go,
-  Inv st -> kr_ok kr -> key_block v st guid kr ar = (st1, o, sy, go) -> Inv st1 /\ ok_outs o.
+Lemma key_block_ok : forall co st guid kr ar st1 o sy go,
+  Inv st -> kr_ok kr -> key_block v co st guid kr ar = (st1, o, sy, go) -> Inv st1 /\ ok_outs o.
 Proof.
-  intros st guid kr ar st1 o sy go HI Hkr H. unfold key_block in H.
+  intros co st guid kr ar st1 o sy go HI Hkr H. unfold key_block in H.
   destruct guid as [g|]; [|eapply acquire_block_ok; eauto].
   destruct (lookup_file g (files st)) as [[k hex]|] eqn:El.
   - destruct (startup_event "Found key details from local and ready to use.") as [m oe] eqn:Es.
@@ -282,8 +278,8 @@ Proof.
       eapply lookup_file_in; eauto. }
     pose proof (set_status_ok _ _ _ _ _ HI1 E) as X; feed X; destruct X as (A & B & _).
     split; [apply Inv_key_latched; auto | so].
-  - destruct (acquire_block v st kr ar) as [[[st2 o2] s2] go2] eqn:E. inversion H; subst; clear H.
-    destruct (acquire_block_ok _ _ _ _ _ _ _ HI Hkr E) as [A B]. split; auto. so.
+  - destruct (acquire_block v co st kr ar) as [[[st2 o2] s2] go2] eqn:E. inversion H; subst; clear H.
+    destruct (acquire_block_ok _ _ _ _ _ _ _ _ HI Hkr E) as [A B]. split; auto. so.
 Qed.
 
 Lemma update_chan_ok : forall st c st1 o, Inv st -> update_chan st c = (st1, o) -> Inv st1 /\ ok_outs o.
@@ -309,10 +305,10 @@ Proof.
   - apply Inv_key_latched, Inv_set_notify; auto.
 Qed.
 
-Lemma poll_ok : forall st s kr ar st1 o sy,
-  Inv st -> kr_ok kr -> poll v st s kr ar = (st1, o, sy) -> Inv st1 /\ ok_outs o.
+Lemma poll_ok : forall co st s kr ar st1 o sy,
+  Inv st -> kr_ok kr -> poll v co st s kr ar = (st1, o, sy) -> Inv st1 /\ ok_outs o.
 Proof.
-  intros st s kr ar st1 o sy HI Hkr H. unfold poll in H.
+  intros co st s kr ar st1 o sy HI Hkr H. unfold poll in H.
   (* a failed status request: one status message, then the wake-up *)
   assert (Hfail : forall msg, secrets msg = [] ->
      (let '(st', o0, sy0) := (let '(sta, oa) := set_status st msg true in (sta, oa, @nil sys)) in
@@ -327,7 +323,7 @@ Proof.
   pose proof (set_status_ok _ _ _ _ _ HI E1) as X; feed X; destruct X as (A1 & B1 & _).
   destruct (update_rules sta r) as [stb ob] eqn:E2.
   destruct (update_rules_ok _ _ _ _ A1 E2) as [A2 B2].
-  destruct (if enabled && guid_differs guid (mem stb) then key_block v stb guid kr ar else (stb, [], [], true))
+  destruct (if enabled && guid_differs guid (mem stb) then key_block v co stb guid kr ar else (stb, [], [], true))
     as [[[stc oc] sc] go] eqn:E3.
   assert (A3 : Inv stc /\ ok_outs oc).
   { destruct (enabled && guid_differs guid (mem stb)).
@@ -594,11 +590,15 @@ Lemma fold_sys_app : forall a b d, fold_left sys_step (a ++ b) d = fold_left sys
 Proof. intros; apply fold_left_app. Qed.
 
 (* ---- the agent's view of the directory ([dir_exists]) and the directory itself ---- *)
-Definition J (co : bool) (st : state) (d : dirstate) : Prop :=
-  (dir_exists st = false -> d = None) /\ (dir_exists st = true -> restricted_in co d = true).
+Definition J (st : state) (d : dirstate) : Prop :=
+  (dir_exists st = false -> d = None) /\ (dir_exists st = true -> d <> None).
+
+Definition acl_tr (co : bool) : list sys := (if co then [Chown 0 0] else []) ++ [Chmod 448].
+(* what storing a key does to the directory since fd6287b: create it if gone, restrict it, create the file *)
+Definition store_tr (co dir : bool) : list sys := (if dir then @nil sys else [Mkdir]) ++ acl_tr co ++ [Create FKeyFile].
 
 Lemma boot_trace : forall fs dir co st o sy, boot fs dir co = (st, o, sy) ->
-  sy = (if dir then [] else [Mkdir]) ++ (if co then [Chown 0 0] else []) ++ [Chmod 448] /\ dir_exists st = true.
+  sy = (if dir then [] else [Mkdir]) ++ acl_tr co /\ dir_exists st = true.
 Proof.
   intros fs dir co st o sy H. unfold boot in H.
   destruct (startup_event "Started proxy listener, ready to accept request").
@@ -629,90 +629,71 @@ Proof.
   destruct (chan (set_notify st false)); inversion H; reflexivity.
 Qed.
 
-(* what the key block does to the directory: nothing, or (only when the agent believes the directory exists)
-   one key file creation *)
-Definition key_sys (st : state) (sy : list sys) : Prop :=
-  sy = [] \/ (dir_exists st = true /\ sy = [Create FKeyFile]).
+(* what the key block does to the directory: nothing, or one key store *)
+Definition key_sys (co : bool) (st st1 : state) (sy : list sys) : Prop :=
+  (sy = [] /\ dir_exists st1 = dir_exists st) \/ (sy = store_tr co (dir_exists st) /\ dir_exists st1 = true).
 
-Lemma acquire_block_sys : forall v st kr ar st1 o sy go, acquire_block v st kr ar = (st1, o, sy, go) ->
-  dir_exists st1 = dir_exists st /\ key_sys st sy.
+Lemma acquire_block_sys : forall v co st kr ar st1 o sy go, acquire_block v co st kr ar = (st1, o, sy, go) ->
+  key_sys co st st1 sy.
 Proof.
-  intros v st kr ar st1 o sy go H. unfold acquire_block in H.
+  intros v co st kr ar st1 o sy go H. unfold acquire_block in H.
   destruct kr as [k hex| |k l].
   - destruct (negb hex && fix_hex v).
     + destruct (set_status st msg_acquire_nonhex_fixed true) eqn:E; inversion H; subst.
-      split; [eapply set_status_dir; eauto | left; reflexivity].
-    + destruct (negb (dir_exists st)) eqn:Ed.
-      * destruct (set_status st msg_store_failed true) eqn:E; inversion H; subst.
-        split; [eapply set_status_dir; eauto | left; reflexivity].
-      * apply negb_false_iff in Ed. destruct (negb hex).
-        -- inversion H; subst. split; [reflexivity | right; auto].
-        -- destruct ar.
-           ++ destruct (startup_event "Successfully attest the key and ready to use.").
-              match type of H with context [set_status ?s0 ?m false] => destruct (set_status s0 m false) eqn:E end.
-              inversion H; subst. split; [|right; auto]. simpl. rewrite (set_status_dir _ _ _ _ _ E). reflexivity.
-           ++ inversion H; subst. split; [reflexivity | right; auto].
+      left; split; [reflexivity | eapply set_status_dir; eauto].
+    + destruct (negb hex).
+      * inversion H; subst. right; split; reflexivity.
+      * destruct ar.
+        -- destruct (startup_event "Successfully attest the key and ready to use.").
+           match type of H with context [set_status ?s0 ?m false] => destruct (set_status s0 m false) eqn:E end.
+           inversion H; subst. right; split; [reflexivity|]. simpl. rewrite (set_status_dir _ _ _ _ _ E). reflexivity.
+        -- inversion H; subst. right; split; reflexivity.
   - destruct (set_status st msg_acquire_status true) eqn:E; inversion H; subst.
-    split; [eapply set_status_dir; eauto | left; reflexivity].
+    left; split; [reflexivity | eapply set_status_dir; eauto].
   - match type of H with context [set_status ?s0 ?m true] => destruct (set_status s0 m true) eqn:E end.
-    inversion H; subst. split; [eapply set_status_dir; eauto | left; reflexivity].
+    inversion H; subst. left; split; [reflexivity | eapply set_status_dir; eauto].
 Qed.
 
-Lemma key_block_sys : forall v st g kr ar st1 o sy go, key_block v st g kr ar = (st1, o, sy, go) ->
-  dir_exists st1 = dir_exists st /\ key_sys st sy.
+Lemma key_block_sys : forall v co st g kr ar st1 o sy go, key_block v co st g kr ar = (st1, o, sy, go) ->
+  key_sys co st st1 sy.
 Proof.
-  intros v st g kr ar st1 o sy go H. unfold key_block in H.
+  intros v co st g kr ar st1 o sy go H. unfold key_block in H.
   destruct g as [g|]; [|eapply acquire_block_sys; eauto].
   destruct (lookup_file g (files st)) as [[k hex]|].
   - destruct (startup_event "Found key details from local and ready to use.").
     match type of H with context [set_status ?s0 ?m false] => destruct (set_status s0 m false) eqn:E end.
-    inversion H; subst. split; [|left; reflexivity]. simpl. rewrite (set_status_dir _ _ _ _ _ E). reflexivity.
-  - destruct (acquire_block v st kr ar) as [[[st2 o2] s2] go2] eqn:E. inversion H; subst.
+    inversion H; subst. left; split; [reflexivity|]. simpl. rewrite (set_status_dir _ _ _ _ _ E). reflexivity.
+  - destruct (acquire_block v co st kr ar) as [[[st2 o2] s2] go2] eqn:E. inversion H; subst.
     eapply acquire_block_sys; eauto.
 Qed.
 
-Lemma poll_sys : forall v st s kr ar st1 o sy, poll v st s kr ar = (st1, o, sy) ->
-  dir_exists st1 = dir_exists st /\ key_sys st sy.
+Lemma poll_sys : forall v co st s kr ar st1 o sy, poll v co st s kr ar = (st1, o, sy) -> key_sys co st st1 sy.
 Proof.
-  intros v st s kr ar st1 o sy H. unfold poll in H.
+  intros v co st s kr ar st1 o sy H. unfold poll in H.
   destruct s as [enabled guid r| | |];
     try (match type of H with context [set_status ?s0 ?m true] => destruct (set_status s0 m true) as [sa oa] eqn:E end;
          destruct (wake sa) eqn:Ew; inversion H; subst;
-         split; [rewrite (wake_dir _ _ _ Ew); eapply set_status_dir; eauto | left; reflexivity]).
+         left; split; [reflexivity | rewrite (wake_dir _ _ _ Ew); eapply set_status_dir; eauto]).
   destruct (set_status st msg_got_status true) as [sta oa] eqn:E1.
   destruct (update_rules sta r) as [stb ob] eqn:E2.
   assert (Db : dir_exists stb = dir_exists st)
     by (rewrite (update_rules_dir _ _ _ _ E2); eapply set_status_dir; eauto).
-  destruct (if enabled && guid_differs guid (mem stb) then key_block v stb guid kr ar else (stb, [], [], true))
+  destruct (if enabled && guid_differs guid (mem stb) then key_block v co stb guid kr ar else (stb, [], [], true))
     as [[[stc oc] sc] go] eqn:E3.
-  assert (Hc : dir_exists stc = dir_exists stb /\ key_sys stb sc).
-  { destruct (enabled && guid_differs guid (mem stb)); [eapply key_block_sys; eauto | inversion E3; subst; split; [reflexivity | left; reflexivity]]. }
-  destruct Hc as [Dc Kc].
-  assert (Kc' : key_sys st sc) by (destruct Kc as [K|[K1 K2]]; [left; auto | right; rewrite <- Db; auto]).
+  assert (Kc : key_sys co stb stc sc).
+  { destruct (enabled && guid_differs guid (mem stb)); [eapply key_block_sys; eauto | inversion E3; subst; left; split; reflexivity]. }
+  assert (Kend : forall ste, dir_exists ste = dir_exists stc -> key_sys co st ste sc).
+  { intros ste De. destruct Kc as [[K1 K2]|[K1 K2]]; [left | right]; split; auto; congruence. }
   destruct go.
   - destruct (update_chan stc (if enabled then ChEnabled else ChDisabled)) as [std od] eqn:E4.
-    destruct (wake std) eqn:E5. inversion H; subst. split; auto.
-    rewrite (wake_dir _ _ _ E5), (update_chan_dir _ _ _ _ E4). congruence.
-  - destruct (wake stc) eqn:E5. inversion H; subst. split; auto.
-    rewrite (wake_dir _ _ _ E5). congruence.
-Qed.
-
-(* how an op moves the "directory is currently gone" flag of the class predicate, and which op is excluded *)
-Definition next_removed (r : bool) (o : op) : bool :=
-  match o with RemoveKeyDir => true | Restart => false | _ => r end.
-Definition allowed_op (r : bool) (o : op) : bool :=
-  match o with ProvisionTimeup => negb r | _ => true end.
-
-Lemma recreated_cons : forall r o h, recreated_unrestricted r (o :: h) = false ->
-  allowed_op r o = true /\ recreated_unrestricted (next_removed r o) h = false.
-Proof.
-  intros r o h H. destruct o; simpl in *; try (split; [reflexivity | assumption]).
-  apply orb_false_iff in H. destruct H as [H1 H2]. subst r. split; [reflexivity | exact H2].
+    destruct (wake std) eqn:E5. inversion H; subst. apply Kend.
+    rewrite (wake_dir _ _ _ E5), (update_chan_dir _ _ _ _ E4). reflexivity.
+  - destruct (wake stc) eqn:E5. inversion H; subst. apply Kend. apply (wake_dir _ _ _ E5).
 Qed.
 
 Lemma restricted_after_acl : forall co (dir : bool) d,
   (dir = true -> d <> None) ->
-  restricted_in co (fold_left sys_step ((if dir then @nil sys else [Mkdir]) ++ (if co then [Chown 0 0] else []) ++ [Chmod 448]) d) = true.
+  restricted_in co (fold_left sys_step ((if dir then @nil sys else [Mkdir]) ++ acl_tr co) d) = true.
 Proof.
   intros co dir d Hd. destruct dir.
   - destruct d as [[c0 m0]|]; [|exfalso; apply Hd; auto]. destruct co; reflexivity.
@@ -726,97 +707,110 @@ Proof.
   exfalso. apply (H (Create FKeyFile)); [left|]; reflexivity.
 Qed.
 
-Lemma step_dir : forall v co st o st1 outs sy d,
-  J co st d -> allowed_op (negb (dir_exists st)) o = true -> step v co st o = (st1, outs, sy) ->
-  creates_restricted co d sy = true /\ J co st1 (fold_left sys_step sy d)
-  /\ negb (dir_exists st1) = next_removed (negb (dir_exists st)) o.
+Lemma acl_prefix_no_create : forall co (dir : bool) e, In e ((if dir then @nil sys else [Mkdir]) ++ acl_tr co) -> e <> Create FKeyFile.
+Proof. intros co dir e He. destruct dir; destruct co; simpl in He; intuition; subst; discriminate. Qed.
+
+(* a key store: the file is created in a directory that exists and has just been restricted *)
+Lemma store_tr_ok : forall co (dir : bool) d, (dir = true -> d <> None) ->
+  creates_restricted co d (store_tr co dir) = true /\ fold_left sys_step (store_tr co dir) d <> None.
 Proof.
-  intros v co st o st1 outs sy d [J1 J2] Hal H. destruct o as [s kr ar| | |n| | | |]; simpl in H.
-  - destruct (poll_sys _ _ _ _ _ _ _ _ H) as [D [K|[K1 K2]]]; subst sy; simpl.
-    + repeat split; unfold J; rewrite ?D; auto.
-    + rewrite (J2 K1). simpl. repeat split; rewrite ?D; auto.
-  - destruct (boot_trace _ _ _ _ _ _ H) as [-> D].
-    assert (R : restricted_in co (fold_left sys_step ((if dir_exists st then @nil sys else [Mkdir]) ++ (if co then [Chown 0 0] else []) ++ [Chmod 448]) d) = true).
-    { apply restricted_after_acl. intros E Hn. pose proof (J2 E) as X. subst d. destruct co; discriminate. }
-    split; [|split].
-    + apply no_key_create. intros e He. destruct (dir_exists st); destruct co; simpl in He; intuition; subst; discriminate.
-    + split; [rewrite D; discriminate | intros _; exact R].
-    + rewrite D; reflexivity.
-  - inversion H; subst; simpl. repeat split; auto.
+  intros co dir d Hd. unfold store_tr. rewrite app_assoc.
+  pose proof (restricted_after_acl co dir d Hd) as R.
+  assert (E1 : forall x, creates_restricted co x [Create FKeyFile] = restricted_in co x && true) by reflexivity.
+  assert (E2 : forall x, fold_left sys_step [Create FKeyFile] x = x) by (intros [[? ?]|]; reflexivity).
+  split.
+  - rewrite creates_restricted_app, E1, R.
+    rewrite (no_key_create co d _ (acl_prefix_no_create co dir)). reflexivity.
+  - rewrite fold_sys_app, E2.
+    destruct (fold_left sys_step ((if dir then []%list else [Mkdir]) ++ acl_tr co) d) as [[c0 m0]|]; [discriminate|].
+    destruct co; discriminate.
+Qed.
+
+Lemma step_dir : forall v co st o st1 outs sy d,
+  J st d -> step v co st o = (st1, outs, sy) ->
+  creates_restricted co d sy = true /\ J st1 (fold_left sys_step sy d).
+Proof.
+  intros v co st o st1 outs sy d [J1 J2] H. destruct o as [s kr ar| | |n| | | |]; simpl in H.
+  - destruct (poll_sys _ _ _ _ _ _ _ _ _ H) as [[K D]|[K D]]; subst sy.
+    + simpl. split; auto. split; rewrite D; auto.
+    + destruct (store_tr_ok co (dir_exists st) d J2) as [A B]. split; auto.
+      split; [rewrite D; discriminate | intros _; exact B].
+  - destruct (boot_trace _ _ _ _ _ _ H) as [-> D]. split.
+    + apply no_key_create. apply acl_prefix_no_create.
+    + split; [rewrite D; discriminate | intros _].
+      pose proof (restricted_after_acl co (dir_exists st) d J2) as R.
+      destruct (fold_left sys_step ((if dir_exists st then []%list else [Mkdir]) ++ acl_tr co) d) as [[c0 m0]|]; [discriminate|].
+      destruct co; discriminate.
+  - inversion H; subst; simpl. split; auto. split; auto.
   - destruct (provision_query st n) as [st2 o2] eqn:E. inversion H; subst; simpl.
     assert (D : dir_exists st1 = dir_exists st).
     { unfold provision_query in E. destruct (failed_state_message st). inversion E; subst.
       destruct (n && negb (chan_latched (chan st))); reflexivity. }
-    repeat split; rewrite ?D; auto.
-  - simpl in Hal. apply negb_true_iff in Hal. apply negb_false_iff in Hal.
-    unfold provision_timeup in H. destruct (failed_state_message st). inversion H; subst; clear H.
-    rewrite Hal. simpl.
-    replace (sys_step (sys_step d (Create FTag)) (Create FTag)) with d by (destruct d as [[? ?]|]; reflexivity).
-    replace (sys_step d (Create FTag)) with d by (destruct d as [[? ?]|]; reflexivity).
-    split; [reflexivity | split; [split; [simpl; intros X; discriminate | intros _; auto] | simpl; reflexivity]].
-  - inversion H; subst; simpl. repeat split; auto.
+    split; auto. split; rewrite D; auto.
+  - unfold provision_timeup in H. destruct (failed_state_message st). inversion H; subst; clear H.
+    split.
+    + apply no_key_create. intros e He. destruct (dir_exists st); simpl in He; intuition; subst; discriminate.
+    + split; [simpl; intros X; discriminate | intros _].
+      destruct (dir_exists st) eqn:Ed; simpl.
+      * specialize (J2 eq_refl). destruct d as [[c0 m0]|]; [discriminate | congruence].
+      * discriminate.
+  - inversion H; subst; simpl. split; auto. split; auto.
   - inversion H; subst; clear H. destruct (dir_exists st) eqn:Ed; simpl.
-    + split; [reflexivity | split; [split; [auto | simpl; intros X; discriminate] | reflexivity]].
-    + split; [reflexivity | split; [split; [simpl; auto | simpl; intros X; discriminate] | reflexivity]].
-  - inversion H; subst; simpl. repeat split; auto.
+    + split; [reflexivity | split; [auto | simpl; intros X; discriminate]].
+    + split; [reflexivity | split; [simpl; auto | simpl; intros X; discriminate]].
+  - inversion H; subst; simpl. split; auto. split; auto.
 Qed.
 
 Lemma run_from_dir : forall v co h st outs sy d,
-  J co st d -> recreated_unrestricted (negb (dir_exists st)) h = false ->
-  run_from v co st h = (outs, sy) -> creates_restricted co d sy = true.
+  J st d -> run_from v co st h = (outs, sy) -> creates_restricted co d sy = true.
 Proof.
-  intros v co. induction h as [|o h IH]; intros st outs sy d HJ Hc H; simpl in H.
+  intros v co. induction h as [|o h IH]; intros st outs sy d HJ H; simpl in H.
   - inversion H; reflexivity.
   - destruct (step v co st o) as [[st1 o1] s1] eqn:Es. destruct (run_from v co st1 h) as [o2 s2] eqn:Er.
     inversion H; subst; clear H.
-    destruct (recreated_cons _ _ _ Hc) as [Ha Hn].
-    destruct (step_dir _ _ _ _ _ _ _ _ HJ Ha Es) as (C1 & J1 & N1).
-    rewrite creates_restricted_app, C1. simpl.
-    eapply IH; eauto. rewrite N1. exact Hn.
+    destruct (step_dir _ _ _ _ _ _ _ _ HJ Es) as (C1 & J1).
+    rewrite creates_restricted_app, C1. simpl. eapply IH; eauto.
 Qed.
 
-(* in every environment, for every history outside class F12: whatever can be demanded there (mode always,
-   owner when chown can succeed) holds at every creation of a KEY file inside the key directory *)
+(* in every environment, for EVERY history (restarts, removal of the directory, re-creation by the provision
+   deadline included): whatever can be demanded there (mode always, owner when chown can succeed) holds at
+   every creation of a KEY file inside the key directory *)
 Theorem creates_in_restricted_dir : forall v predir co h,
-  KnownClass_keydir_recreated_unrestricted h = false ->
   creates_restricted co (init_dir predir) (sys_trace v predir co h) = true.
 Proof.
-  intros v predir co h Hc. unfold sys_trace, run_all.
+  intros v predir co h. unfold sys_trace, run_all.
   destruct (boot [] predir co) as [[st0 o0] s0] eqn:Eb. destruct (run_from v co st0 h) as [o s] eqn:Er. simpl.
   destruct (boot_trace _ _ _ _ _ _ Eb) as [-> D]. rewrite creates_restricted_app.
-  assert (R : restricted_in co (fold_left sys_step ((if predir then @nil sys else [Mkdir]) ++ (if co then [Chown 0 0] else []) ++ [Chmod 448]) (init_dir predir)) = true).
-  { apply restricted_after_acl. intros ->. discriminate. }
-  rewrite (no_key_create co (init_dir predir)); simpl.
-  - eapply run_from_dir; [| |exact Er].
-    + split; [rewrite D; discriminate | intros _; exact R].
-    + rewrite D. exact Hc.
-  - intros e He. destruct predir; destruct co; simpl in He; intuition; subst; discriminate.
+  rewrite (no_key_create co (init_dir predir) _ (acl_prefix_no_create co predir)). simpl.
+  eapply run_from_dir; [|exact Er].
+  split; [rewrite D; discriminate | intros _].
+  assert (P : predir = true -> init_dir predir <> None) by (intros ->; discriminate).
+  pose proof (restricted_after_acl co predir (init_dir predir) P) as R.
+  destruct (fold_left sys_step ((if predir then []%list else [Mkdir]) ++ acl_tr co) (init_dir predir)) as [[c0 m0]|]; [discriminate|].
+  destruct co; discriminate.
 Qed.
 
 Lemma at_create : forall v predir co h pre post,
-  KnownClass_keydir_recreated_unrestricted h = false ->
   sys_trace v predir co h = pre ++ Create FKeyFile :: post -> restricted_in co (dir_after predir pre) = true.
 Proof.
-  intros v predir co h pre post Hc H. pose proof (creates_in_restricted_dir v predir co h Hc) as R. rewrite H in R.
+  intros v predir co h pre post H. pose proof (creates_in_restricted_dir v predir co h) as R. rewrite H in R.
   rewrite creates_restricted_app in R. apply andb_true_iff in R. destruct R as [_ R].
   simpl in R. apply andb_true_iff in R. destruct R as [R _]. exact R.
 Qed.
 
 (* Prop forms.  Whatever the environment: the mode is 0o700 at every creation of a key file *)
 Theorem dir_mode_restricted_at_create : forall v predir co h pre post,
-  KnownClass_keydir_recreated_unrestricted h = false ->
   sys_trace v predir co h = pre ++ Create FKeyFile :: post -> mode_restricted (dir_after predir pre) = true.
 Proof.
-  intros v predir co h pre post Hc H. pose proof (at_create v predir co h pre post Hc H) as R.
+  intros v predir co h pre post H. pose proof (at_create v predir co h pre post H) as R.
   destruct co; simpl in R; auto.
   destruct (dir_after predir pre) as [[c0 m0]|]; simpl in *; [destruct c0; auto; discriminate | discriminate].
 Qed.
 
 (* where chown can succeed: root:root and 0o700 (and nothing undid that) *)
 Theorem dir_restricted_at_create : forall v predir h pre post,
-  KnownClass_keydir_recreated_unrestricted h = false ->
   sys_trace v predir true h = pre ++ Create FKeyFile :: post -> restricted (dir_after predir pre) = true.
-Proof. intros v predir h pre post Hc H. exact (at_create v predir true h pre post Hc H). Qed.
+Proof. intros v predir h pre post H. exact (at_create v predir true h pre post H). Qed.
 
 Lemma mode_700_needs_chmod : forall tr d, mode_restricted (fold_left sys_step tr d) = true ->
   mode_restricted d = true \/ In (Chmod 448) tr.
@@ -848,32 +842,29 @@ Proof.
 Qed.
 
 (* DESIGN form: the chmod 0o700 of the key directory precedes every creation of a key file in it -- in every
-   environment, also when the directory existed, unrestricted, before the agent first ran; and so does the
-   chown root:root wherever it can succeed *)
+   environment and every history; and so does the chown root:root wherever it can succeed *)
 Theorem dir_restricted_first : forall v predir co h pre post,
-  KnownClass_keydir_recreated_unrestricted h = false ->
   sys_trace v predir co h = pre ++ Create FKeyFile :: post ->
   In (Chmod 448) pre /\ (co = true -> In (Chown 0 0) pre).
 Proof.
-  intros v predir co h pre post Hc H. split.
-  - pose proof (dir_mode_restricted_at_create v predir co h pre post Hc H) as M. unfold dir_after in M.
+  intros v predir co h pre post H. split.
+  - pose proof (dir_mode_restricted_at_create v predir co h pre post H) as M. unfold dir_after in M.
     destruct (mode_700_needs_chmod _ _ M) as [A|A]; [destruct predir; discriminate | exact A].
-  - intros ->. pose proof (dir_restricted_at_create v predir h pre post Hc H) as R. unfold dir_after in R.
+  - intros ->. pose proof (dir_restricted_at_create v predir h pre post H) as R. unfold dir_after in R.
     assert (M2 : (match fold_left sys_step pre (init_dir predir) with Some (true, _) => true | _ => false end) = true).
     { destruct (fold_left sys_step pre (init_dir predir)) as [[c0 m0]|]; simpl in *; [destruct c0; auto; discriminate | discriminate]. }
     destruct (owner_needs_chown _ _ M2) as [A|A]; [destruct predir; discriminate | exact A].
 Qed.
 
-(* F12: the class is not empty and the statement fails on it -- the key directory is removed, the provision
-   deadline re-creates it with default permissions (write_provision_state -> try_create_folder), and the next
-   key is stored in a 0o755 directory that nothing restricts until the agent is started again *)
+(* F12 (repaired by fd6287b): the history on which the code used to store a key in a directory the provision
+   deadline had re-created unrestricted -- now the store restricts it first *)
 Definition witness_keydir_recreated : history :=
   [Poll (SOk true None 1) (KOk 1 true) AOk; RemoveKeyDir; ProvisionTimeup; Poll (SOk true None 1) (KOk 2 true) AOk].
 
-Lemma keydir_recreated_refuted :
-  exists h, KnownClass_keydir_recreated_unrestricted h = true
-            /\ creates_restricted true (init_dir false) (sys_trace current false true h) = false.
-Proof. exists witness_keydir_recreated. vm_compute. split; reflexivity. Qed.
+Lemma keydir_recreated_now_restricted :
+  map sys_code (sys_trace current false true witness_keydir_recreated)
+  = [(0, 0); (1, 0); (2, 448); (1, 0); (2, 448); (3, 0); (4, 0); (0, 0); (3, 1); (3, 1); (1, 0); (2, 448); (3, 0)]%N.
+Proof. vm_compute. reflexivity. Qed.
 
 (* the gate is exactly hex::decode's acceptance: an odd number of hex digits is refused like any other
    undecodable value (without the gate it would reach attest_key's Error::Hex(.., OddLength) line) *)
@@ -893,11 +884,11 @@ Lemma nonvacuous_examples :
                        StatusTick; ProvisionQuery true; ProvisionTimeup])
     = [(KeyFile, [1%N; 2%N])]
   /\ map sys_code (sys_trace unfixed false true [Poll (SOk true None 1) (KOk 1 true) AOk; ProvisionTimeup; Restart; Poll (SOk true None 1) (KOk 2 true) AOk])
-    = [(0, 0); (1, 0); (2, 448); (3, 0); (3, 1); (3, 1); (1, 0); (2, 448); (3, 0)]%N
+    = [(0, 0); (1, 0); (2, 448); (1, 0); (2, 448); (3, 0); (3, 1); (3, 1); (1, 0); (2, 448); (1, 0); (2, 448); (3, 0)]%N
   /\ map sys_code (sys_trace unfixed true true [Poll (SOk true None 1) (KOk 1 true) AOk])
-    = [(1, 0); (2, 448); (3, 0)]%N
+    = [(1, 0); (2, 448); (1, 0); (2, 448); (3, 0)]%N
   /\ map sys_code (sys_trace current true false [Poll (SOk true None 1) (KOk 1 true) AOk])
-    = [(2, 448); (3, 0)]%N
+    = [(2, 448); (2, 448); (3, 0)]%N
   /\ vector (run repaired witness_not_hex) = []
   /\ vector (run repaired witness_body_malformed) = [].
 Proof. vm_compute. repeat split. Qed.
